@@ -1070,6 +1070,19 @@ func (fc *FnCtx) modified(li *loopInfo) (locals map[*ssa.Alloc]bool, heaps map[s
 				m := x.Map.Type().Underlying().(*types.Map)
 				d, v, l := fc.mapKeys(m)
 				heaps[d], heaps[v], heaps[l] = true, true, true
+				n := 0
+				for _, bb := range in.Parent().Blocks {
+					for _, in2 := range bb.Instrs {
+						if mu, ok := in2.(*ssa.MapUpdate); ok {
+							if mu == x {
+								for _, g := range fc.anchorGhostsFn(in.Parent(), fmt.Sprintf("mapupdate#%d", n)) {
+									heaps[fc.ghostKey(g)] = true
+								}
+							}
+							n++
+						}
+					}
+				}
 			case *ssa.Range:
 				heaps[fc.iterKey(x)] = true
 			case *ssa.Next:
@@ -1086,6 +1099,10 @@ func (fc *FnCtx) modified(li *loopInfo) (locals map[*ssa.Alloc]bool, heaps map[s
 				}
 				for _, k := range ks {
 					addKey(k)
+				}
+				// ghost variables assigned by clauses anchored at this call
+				for _, g := range fc.anchorGhosts(fc.callAnchorIn(in.Parent(), x.Common())) {
+					heaps[fc.ghostKey(g)] = true
 				}
 			case *ssa.Send, *ssa.Select:
 				all = true
@@ -1289,6 +1306,9 @@ func (fc *FnCtx) loopEntry(fr *frame, st *State, li *loopInfo) {
 	// the function's frame is an invariant of every loop (checked at entry and on the back edge)
 	for _, g := range fc.frameGoals(st) {
 		fc.assume(st, g.goal)
+		if g.atForm != "" {
+			fc.assume(st, g.atForm)
+		}
 	}
 	if ls != nil {
 		for _, inv := range ls.Invariants {
